@@ -248,6 +248,31 @@ def run(rep):
         rep.nontrivial += len(seen)
         rep.extra['fault_enumeration'] = {'distinct_prefix_or_garbage_cases': len(seen)}
         rep.sample({'leg': 'fault', 'example': 'cache truncated to 137 of %d bytes' % len(loaders['vasprun'].image[(1, 1)])})
+        # ---- two source files with the same base name in different directories are different sources
+        ld = loaders['lammps']
+        for p in ld.work.glob('*.cache'):
+            p.unlink()
+        alt = root / 'lammps' / 'other_run'
+        alt.mkdir()
+        txt = (ld.work / 'lammps.data').read_text().replace('0.0 10.0 zlo zhi', '0.0 12.5 zlo zhi')
+        (alt / 'lammps.data').write_text(txt)
+        from gemdat import Trajectory as _T
+        with contextlib.redirect_stdout(io.StringIO()):
+            kw = dict(coords_file=ld.work / 'traj.xyz', temperature=300, time_step=1.0)
+            fresh_a = _T.from_lammps(data_file=ld.work / 'lammps.data', cache=root / 'fresh_a.cache', **kw)
+            fresh_b = _T.from_lammps(data_file=alt / 'lammps.data', cache=root / 'fresh_b.cache', **kw)
+            for order in (('a', 'b'), ('b', 'a')):
+                for p in ld.work.glob('*.cache'):
+                    p.unlink()
+                for which in order + order:
+                    t = _T.from_lammps(data_file=(ld.work if which == 'a' else alt) / 'lammps.data', **kw)
+                    why = same(t, fresh_a if which == 'a' else fresh_b)
+                    rep.evaluations += 1
+                    if why:
+                        rep.violation({'kind': 'fault', 'clause': 'same-named-source-in-another-directory-shares-the-cache:' + why,
+                                       'loader': 'lammps', 'order': list(order + order), 'which': which})
+        if same(fresh_a, fresh_b) is None:
+            raise core.Machinery('the two LAMMPS data files do not differ')
         # ---- to_cache / from_cache round trip in both modes
         for kind, ld in loaders.items():
             for a, t in ld.fresh.items():
